@@ -16,6 +16,7 @@ SCENARIOS = {
     'loss-and-reconnect': (['arrive', 'loss', 'reconnect', 'arrive'], ['r', 'r']),
     'final-disconnect': (['arrive', 'final'], ['r', 'r']),
     'emit-during-loss': (['loss', 'reconnect'], ['e']),
+    'call-during-loss': (['loss', 'reconnect'], ['c']),
     'emit-after-final': (['final'], ['e']),
     'receive-during-loss': (['loss', 'reconnect', 'arrive'], ['r']),
     # the server greets from its own connect handler: the event is dispatched while connect() is still running
@@ -69,6 +70,12 @@ class FakeClient:
             raise exceptions.BadNamespaceError(namespace)
         FakeClient.env.emitted.append((event, data, namespace))
 
+    def call(self, event, data=None, namespace=None, timeout=60):
+        if not FakeClient.env.up:
+            raise exceptions.BadNamespaceError(namespace)
+        FakeClient.env.emitted.append((event, data, namespace))
+        return 'answer'
+
     def get_sid(self, ns):
         return 'sid'
 
@@ -80,6 +87,10 @@ class AFakeClient(FakeClient):
     async def emit(self, event, data=None, namespace=None):
         await miniloop.sleep(0)
         return FakeClient.emit(self, event, data, namespace)
+
+    async def call(self, event, data=None, namespace=None, timeout=60):
+        await miniloop.sleep(0)
+        return FakeClient.call(self, event, data, namespace, timeout)
 
 
 def verdict(env, got, arrivals, buffer_left, stuck, excs, trace):
@@ -189,6 +200,9 @@ def h_threads(t, part):
                 try:
                     if a == 'r':
                         got.append(c.receive(timeout=1))
+                    elif a == 'c':
+                        c.call('hello', 1, timeout=1)
+                        got.append('EMITTED')
                     else:
                         c.emit('hello', 1)
                         got.append('EMITTED')
@@ -217,7 +231,7 @@ def h_threads(t, part):
 
 
 def check_emit(env, got, cons, prod):
-    if 'e' in cons:
+    if 'e' in cons or 'c' in cons:
         if 'final' in prod:
             if got != ['DISCONNECTED'] and got != ['EMITTED']:
                 return Fail('simple:emit-after-final', repr(got))
@@ -225,7 +239,7 @@ def check_emit(env, got, cons, prod):
                 return Fail('simple:emit-lost', '')
         else:
             if got != ['EMITTED'] or len(env.emitted) != 1:
-                return Fail('simple:emit-did-not-wait-out-reconnection', 'emit during a temporary loss gave %r, delivered %r' % (
+                return Fail('simple:emit-did-not-wait-out-reconnection', 'emit / call during a temporary loss gave %r, delivered %r' % (
                     got, env.emitted))
     return None
 
@@ -275,6 +289,9 @@ def h_async(t, part):
                 try:
                     if a == 'r':
                         got.append(await c.receive(timeout=1))
+                    elif a == 'c':
+                        await c.call('hello', 1, timeout=1)
+                        got.append('EMITTED')
                     else:
                         await c.emit('hello', 1)
                         got.append('EMITTED')
@@ -387,7 +404,7 @@ META = dict(
                 'operations from {emit, call answered, one / two events arrive, receive, receive that times out, the server '
                 'ends the namespace, disconnect()}, checked against a reference model (buffered events first and in order, '
                 'then TimeoutError while connected and DisconnectedError once the connection has ended for good).',
-    bounds={'quick': 'eight scenarios (two arrivals || two receives; a greeting dispatched while connect() is still running; burst of three; loss and reconnection between arrivals; '
+    bounds={'quick': 'nine scenarios (call during a temporary loss; two arrivals || two receives; a greeting dispatched while connect() is still running; burst of three; loss and reconnection between arrivals; '
                      'final disconnect; emit during a temporary loss; emit after the end; receive during a loss); all '
                      'schedules at the granularity of event/buffer operations (decision bound 80)',
             'thorough': 'decision bound 120'},
